@@ -63,6 +63,21 @@ pub fn run_query(ctl: &Arc<Ctl>, sc: &Value, ns: usize, sched: Option<&Vec<Value
     for t in jarr(sc, "tracks") {
         store.add_track(build(&plan, t)).expect("add");
     }
+    // merge histories are no part of a distance query (StoreConc.tla has no such component): in half of the scenarios the
+    // first stored track has, before the query, absorbed the HISTORY of an external track without observations that carries
+    // the id of a candidate of the query (nothing else changes: no observation is merged)
+    let stored: Vec<&Value> = jarr(sc, "tracks").iter().collect();
+    let cands = jarr(sc, "cands");
+    if !stored.is_empty() && !cands.is_empty() && (stored.len() + cands.len() + jint(sc, "limit") as usize) % 2 == 0 {
+        let first = jint(stored[0], "id");
+        if let Some(cid) = cands.iter().map(|c| jint(c, "id")).find(|c| *c != first) {
+            let mut helper = stored[0].clone();
+            helper["id"] = json!(cid);
+            helper["obs"] = json!({});
+            let helper = build(&plan, &helper);
+            store.merge_external(first as u64, &helper, None, true).expect("history-only merge");
+        }
+    }
     let owned = jbool(sc, "owned");
     let cls = jint(sc, "cls") as u64;
     let baked = jbool(sc, "baked");
